@@ -64,6 +64,20 @@ def make_case(rng, i, tier):
     if route == "split" and (i // len(ROUTES)) % 2 == 0 and len(pc["bars"]) >= 2:
         # capacities equal to the bar lengths: the signature / key events of the piece sit exactly on the inner boundaries
         caps = [b[1] for b in pc["bars"]][:rng.randint(2, 3)]
+    if route == "split" and (i // len(ROUTES)) % 3 == 1:
+        # control / program changes on the very last tick of the source (a pedal release on the final bar line), that tick being the last
+        # split boundary; then an operation that writes to non-note messages as well (set_channel) on either side
+        import random
+        r5 = random.Random(f"c16-final-tick:{i}")
+        total = sum(b[1] for b in pc["bars"])
+        for t in pc["tracks"]:
+            chn = t["notes"][0][0] if t["notes"] else 0
+            t.setdefault("extra", []).append(r5.choice([["cc", total, chn, 64, 0], ["pc", total, chn, 7], ["cc", total, chn, 7, 100]]))
+            t["pad"] = max(t.get("pad") or 0, total)
+        caps = [b[1] for b in pc["bars"]]
+        if r5.random() < 0.4 and len(caps) >= 2:
+            caps = [caps[0] + caps[1]] + caps[2:]
+        hist = hist[:3] + [{"op": "set_channel", "c": r5.randrange(2, 6), "which": len(caps) - 1 if side == "derived" else 0}] + hist[3:]
     return {"route": route, "side": side, "piece": pc, "history": hist, "caps": caps}
 
 
